@@ -34,7 +34,7 @@ KDIjepaMaskCollator = _ijepa_mod.KDIjepaMaskCollator
 
 LEVEL = "exploration"
 RULE = ("alternating DINO / I-JEPA configurations: grids 3..24 (square and non-square), batch sizes 1..8 (B=1 boosted), "
-        "DINO: views 1..3, mask_prob from {0, 1, k/(B*views), random}, ratio ranges from {scalar, lo=0, hi=1, k/(H*W) ends, "
+        "DINO: views 1..3 (x as one tensor, as a list of exactly the configured views, or as a multi-crop list with 1..8 extra local crops of another spatial size), mask_prob from {0, 1, k/(B*views), random}, ratio ranges from {scalar, lo=0, hi=1, k/(H*W) ends, "
         "random}, min_num_patches 1..8, aspect ranges, histories of 1..4 calls on one collator object with constant / shrinking (last partial batch) / growing / there-and-back / arbitrary batch sizes and every clause applied to every call; I-JEPA: encoder/predictor scale ranges, aspect ranges, "
         "1..3 encoder and 1..4 predictor masks, min_keep from {0, largest admissible, random}, tries 1..20, classes "
         "{in-domain, relaxation-prone, one-patch predictor block, empty predictor block (encoder size becomes decodable), "
@@ -55,7 +55,7 @@ ASSUMPTIONS = [
     "encoder block size is only observable when the predictor blocks are empty; otherwise the step-only clause is judged on predictor sizes",
     "the ambient-contract layer of DESIGN 1.5 (contracts while the pinned suite runs) is replaced by replaying the two pinned test configurations under the same oracle",
 ]
-MONITORS = ["dino_calls_after_batch_size_change", "ijepa_calls_after_batch_size_change", "dino_calls_checked", "dino_nonempty_masks_seen", "ijepa_calls_checked", "ijepa_pred_rectangles_decoded",
+MONITORS = ["dino_multicrop_calls", "dino_calls_after_batch_size_change", "ijepa_calls_after_batch_size_change", "dino_calls_checked", "dino_nonempty_masks_seen", "ijepa_calls_checked", "ijepa_pred_rectangles_decoded",
             "ijepa_disjointness_checked_in_domain", "ijepa_step_size_differential_checked", "ijepa_encoder_size_decoded",
             "batch_passthrough_checked", "step_budget_runs"]
 
@@ -177,6 +177,10 @@ def _gen_dino(rng, quick):
         "return_ctx": rng.random() < 0.94, "calls": calls,
         "seed": rng.randrange(2 ** 31), "g": rng.randrange(2 ** 31),
     }
+    # multi-crop batches: x carries more views than the configured num_views (extra local crops, usually of another
+    # spatial size); masks are promised per (sample x CONFIGURED view)
+    spec["extra_views"] = rng.choice([0, 0, 1, 2, 4, 6, 8]) if spec["x_form"] == "list" else 0
+    spec["extra_size"] = rng.choice([1, 2, 3])
     return spec
 
 
@@ -284,7 +288,9 @@ def _samples(spec, B, dino):
         for it in items:
             if it == "x":
                 if dino and spec["x_form"] == "list":
-                    vals.append([torch.full((1, 2, 2), float(i * 8 + v)) for v in range(views)])
+                    e = spec.get("extra_size", 1)
+                    vals.append([torch.full((1, 2, 2), float(i * 8 + v)) for v in range(views)]
+                                + [torch.full((1, e, e), float(i * 8 + views + v) + 0.5) for v in range(spec.get("extra_views", 0))])
                 else:
                     vals.append(torch.full((1, 2, 2), float(i * 8)) + torch.arange(4.0).view(1, 2, 2) / 8)
             elif it == "index":
@@ -365,7 +371,8 @@ def _run_dino(run, spec):
               mask_size=H if H == W and spec["seed"] % 2 == 0 else (H, W), num_views=views,
               min_num_patches=spec["min_num_patches"], min_aspect=spec["min_aspect"], max_aspect=spec["max_aspect"],
               dataset_mode=spec["mode"], return_ctx=spec["return_ctx"])
-    what = f"KDDinoMaskCollator({ {k: v for k, v in kw.items()} }) batch sizes {hist} x={spec['x_form']}"
+    what = (f"KDDinoMaskCollator({ {k: v for k, v in kw.items()} }) batch sizes {hist} x={spec['x_form']}"
+            + (f" of {views}+{spec['extra_views']} views (extra crops {spec.get('extra_size', 1)}x{spec.get('extra_size', 1)})" if spec.get("extra_views") and spec["x_form"] == "list" else ""))
     GlobalRngSentinel.seed_all(spec["g"])
     ok, coll = call_real(run, lambda: KDDinoMaskCollator(**kw).set_rng(np.random.default_rng(spec["seed"])), crash_key="dino:ctor-crash", what=what)
     if not ok:
@@ -377,7 +384,8 @@ def _run_dino(run, spec):
     per_mask = sum(3 * max(r, spec["min_num_patches"]) + 60 for r in range(1, T + 1))
     p_cls = "0" if p == 0 else "1" if p == 1 else "int" if float(p * hist[0] * views).is_integer() else "frac"
     r_cls = "scalar" if not isinstance(ratio, list) else "lo0" if ratio[0] == 0 else "hi1" if ratio[1] == 1 else "eq" if ratio[0] == ratio[1] else "range"
-    run.cover("dino", "B1" if 1 in hist else "B>1", _hist_class(hist), views, p_cls, r_cls, "3" if min(H, W) == 3 else "sq" if H == W else "rect",
+    extra = spec.get("extra_views", 0) if spec["x_form"] == "list" else 0
+    run.cover("dino", "B1" if 1 in hist else "B>1", _hist_class(hist), views, "multicrop" if extra else "plain", p_cls, r_cls, "3" if min(H, W) == 3 else "sq" if H == W else "rect",
               len(spec["mode"].split(" ")), spec["x_form"], spec["return_ctx"])
     for c, B in enumerate(hist):
         # every per-call clause is applied to every call of the history, with the batch size of THAT call
@@ -386,6 +394,8 @@ def _run_dino(run, spec):
         limit = 3 * (n * per_mask + 20 * n) + 2000
         if c > 0 and B != hist[c - 1]:
             run.count("dino_calls_after_batch_size_change")
+        if extra:
+            run.count("dino_multicrop_calls")
         r = _call(run, coll, spec, B, True, limit, f"{what} call {c} (B={B})")
         if r is None:
             return
